@@ -187,6 +187,10 @@ ENTRIES = [
     ("vec", ("cs", "String")), ("hset", ("opt", U8)),
     ("ref", "FFrom"), ("ref", "FTry"), ("ref", "FTryF"), ("ref", "FMap"), ("ref", "FValidate"), ("ref", "FMissing"), ("ref", "FDenyFn"), ("ref", "FAll"),
     ("ref", "GTry"), ("ref", "GEnum"), ("ref", "GCTry"), ("vec", ("ref", "GTry")),
+    # probe-free twins (no enter / exit events: judged at the end of the call against the declarative semantics)
+    ("bare", "SPlain"), ("bare", "SThree"), ("bare", "SCamel"), ("bare", "SLower"), ("bare", "SRename"), ("bare", "SDeny"), ("bare", "SDefault"), ("bare", "SOpt"),
+    ("bare", "SSkipMid"), ("bare", "SSkipDefault"), ("bare", "SNested"), ("bare", "SWithEnums"), ("bare", "ETag"), ("bare", "ETagCamel"), ("bare", "ETagDeny"),
+    ("bare", "EUnit"), ("bare", "SMix"), ("bare", "SDigits"), ("bare", "SUnderscore"), ("bare", "ESplit"),
     ("ref", "FTryRename"), ("ref", "ETagSnake"), ("ref", "ETagUpper"), ("ref", "EDigitsCamel"), ("ref", "ETagDigitsCamel"), ("ref", "SUnicodeLower"),
     ("ref", "ESplit"), ("ref", "SSplit"), ("ref", "SUnderscore"), ("ref", "SUnderscoreLower"), ("ref", "SUnderscoreCamel"),
     ("tup", [("ref", "SDeny"), ("ref", "SDeny")]), ("bset", ("ref", "SDenySet")), ("hset", ("ref", "SDenySet")), ("bset", ("ref", "FValidateSet")),
